@@ -9,8 +9,17 @@ package otlploggrpc
 //
 //   clsg <gen> <resp> => <ok:<handled>|fatal|retry:<throttle ns>>
 //        one upload with retry disabled; the returned error goes through the package's `retryable`
-//   upg <gen> <pkg> <enabled> <M 0|H|T> <cancel -|pre|at<j>|stop<j>> <resp> | <resp> …
-//        => <res> <attempts> s<0|1> h<n> g<bits|-> p<0|1|->       (same meaning as the HTTP `uph` line)
+//   upg <gen> <pkg>,t<d|p|z|q> <enabled> <M 0|H|T> <cancel -|pre|at<j>|stop<j>|dl0> <resp> | <resp> …
+//        => <res> <attempts> s<0|1> h<n> g<bits|-> p<0|1|-> S<-|nil|ctx|other|stuck>   (as the HTTP `uph` line)
+//     t: client timeout option — d none given (default 10 s), p WithTimeout(30 s), z WithTimeout(0) = none,
+//        q WithTimeout(30 ms) (only with cancel dl0: the client's own deadline ends the first retry wait)
+//     p: the upload returned within 2 s of the cancellation / stop signal (0 = it was still pending then: the
+//        harness's watchdog released it by cancelling the caller's context); S: what Stop returned (stuck = not
+//        within 2 s of being called)
+//   shutg <gen> <pkg>,t<d|p|z> <pend backoff|stall> => S<nil|ctx|other|stuck> E<nil|ctx|other|stuck> n<attempts>
+//     an export is pending (1 h retry back-off after Unavailable, or an attempt the collector never answers), then
+//     Shutdown/Stop is called with a 100 ms deadline; S/E = what Shutdown and the pending export had returned at the
+//     final observation 2 s later (judged by outcome only); afterwards the caller's context is cancelled.
 //   resp: <code>;<details>;<partial>   code: 0..99 | w<code> (status error wrapped with %w) | e (plain error = 2)
 //   details: - | d.d.d with d = n (another detail type) | r<ns> (RetryInfo) | z (RetryInfo without delay)
 //   partial: - | <rejected>:<msg hex>   (only with code 0)
@@ -52,6 +61,7 @@ type vCore struct {
 	answered  []time.Time
 	hook      func(i int)
 	ctxAware  bool
+	stall     bool // the collector never answers: the attempt ends only with its context
 	exhausted bool
 }
 
@@ -74,6 +84,10 @@ func (c *vCore) next(ctx context.Context, req proto.Message) (bool, int64, strin
 	}
 	if c.hook != nil {
 		c.hook(i)
+	}
+	if c.stall {
+		<-ctx.Done()
+		return false, 0, "", status.FromContextError(ctx.Err()).Err()
 	}
 	if i >= len(c.script) {
 		c.exhausted = true
@@ -182,7 +196,7 @@ func vCls(out *vOut, gen, tok string) {
 		return
 	}
 	core := &vCore{script: []vGItem{it}}
-	up := vNewUploader(core, RetryConfig{Enabled: false})
+	up := vNewUploader(core, RetryConfig{Enabled: false}, "d")
 	defer up.close()
 	vTakeHandled()
 	err := up.upload(context.Background())
@@ -201,7 +215,7 @@ func vCls(out *vOut, gen, tok string) {
 	out.Line("clsg %s %s => %s", gen, tok, o)
 }
 
-func vUp(out *vOut, gen string, enabled bool, msel, cancelMode string, toks []string) {
+func vUp(out *vOut, gen, to string, enabled bool, msel, cancelMode string, toks []string) {
 	var script []vGItem
 	for _, t := range toks {
 		it, ok := vParseG(t)
@@ -224,21 +238,30 @@ func vUp(out *vOut, gen string, enabled bool, msel, cancelMode string, toks []st
 		}
 	}
 	core := &vCore{script: script, ctxAware: cancelMode == "pre"}
-	up := vNewUploader(core, rc)
+	up := vNewUploader(core, rc, to)
 	defer up.close()
 	ctx, cancel := context.WithCancel(context.Background())
 	defer cancel()
 	var cancelTime time.Time
 	var stopDone chan struct{}
+	var stopErr error
+	var stopTook time.Duration
+	sig := make(chan struct{}) // closed when the cancellation / stop signal has been given
+	var sigOnce sync.Once
 	switch {
 	case cancelMode == "pre":
 		cancel()
+	case cancelMode == "dl0":
+		// nothing to do: the client's own 30 ms timeout is the event (the watchdog is armed from the start)
+		cancelTime = time.Now().Add(30 * time.Millisecond)
+		sigOnce.Do(func() { close(sig) })
 	case strings.HasPrefix(cancelMode, "at"):
 		j, _ := strconv.Atoi(cancelMode[2:])
 		core.hook = func(i int) {
 			if i == j {
 				cancelTime = time.Now()
 				cancel()
+				sigOnce.Do(func() { close(sig) })
 			}
 		}
 	case strings.HasPrefix(cancelMode, "stop"):
@@ -247,17 +270,50 @@ func vUp(out *vOut, gen string, enabled bool, msel, cancelMode string, toks []st
 			if i == j {
 				cancelTime = time.Now()
 				stopDone = make(chan struct{})
-				go func() { defer close(stopDone); up.stop() }()
+				go func() {
+					defer close(stopDone)
+					t0 := time.Now()
+					stopErr = up.stop()
+					stopTook = time.Since(t0)
+				}()
 				// the shutdown has to have fired its stop context before the scripted answer is returned
 				up.waitStopped()
+				sigOnce.Do(func() { close(sig) })
 			}
 		}
 	}
 	vTakeHandled()
-	err := up.upload(ctx)
+	// the upload runs under a watchdog: if it is still pending 2 s after the cancellation / stop signal it is
+	// released through the caller's context, so that a stuck export is an observation (p0), not a hung harness
+	done := make(chan error, 1)
+	go func() { done <- up.upload(ctx) }()
+	var err error
+	stuck := false
+	select {
+	case err = <-done:
+	case <-sig:
+		select {
+		case err = <-done:
+		case <-time.After(2 * time.Second):
+			stuck = true
+			cancel()
+			err = <-done
+		}
+	}
 	tAfter := time.Now()
+	sres := "-"
 	if stopDone != nil {
 		<-stopDone
+		switch {
+		case stopTook >= 2*time.Second:
+			sres = "stuck"
+		case stopErr == nil:
+			sres = "nil"
+		case errors.Is(stopErr, context.Canceled) || errors.Is(stopErr, context.DeadlineExceeded):
+			sres = "ctx"
+		default:
+			sres = "other"
+		}
 	}
 	h := vTakeHandled()
 	n := len(core.reqs)
@@ -271,7 +327,7 @@ func vUp(out *vOut, gen string, enabled bool, msel, cancelMode string, toks []st
 		res = "elapsed"
 	case strings.HasPrefix(err.Error(), "max retry time would elapse: "):
 		res = "would"
-	case errors.Is(err, context.Canceled):
+	case errors.Is(err, context.Canceled) || (cancelMode == "dl0" && errors.Is(err, context.DeadlineExceeded)):
 		res = "cancel"
 	case func() bool { r, _ := retryable(err); return r }():
 		res = "retry"
@@ -299,12 +355,91 @@ func vUp(out *vOut, gen string, enabled bool, msel, cancelMode string, toks []st
 	p := "-"
 	if !cancelTime.IsZero() {
 		p = "0"
-		if tAfter.Sub(cancelTime) < 2*time.Second {
+		if !stuck && tAfter.Sub(cancelTime) < 2*time.Second {
 			p = "1"
 		}
 	}
-	out.Line("upg %s %s %d %s %s %s => %s %d s%d h%d g%s p%s", gen, vPkgTag, vB(enabled), msel, cancelMode,
-		strings.Join(toks, " | "), res, n, same, h, g, p)
+	out.Line("upg %s %s,t%s %d %s %s %s => %s %d s%d h%d g%s p%s S%s", gen, vPkgTag, to, vB(enabled), msel, cancelMode,
+		strings.Join(toks, " | "), res, n, same, h, g, p, sres)
+}
+
+func vErrClass(err error) string {
+	switch {
+	case err == nil:
+		return "nil"
+	case errors.Is(err, context.Canceled) || errors.Is(err, context.DeadlineExceeded):
+		return "ctx"
+	}
+	return "other"
+}
+
+// vShut: an export is pending, then the exporter is shut down with a short deadline (see the header).
+func vShut(gen, to, pend string) string {
+	rc := RetryConfig{Enabled: true, InitialInterval: time.Hour, MaxInterval: time.Hour}
+	st, _ := vParseG("14;-;-")
+	core := &vCore{script: []vGItem{st, st, st}, stall: pend == "stall"}
+	ex := vNewExporter(core, rc, to)
+	defer ex.close()
+	ctx, release := context.WithCancel(context.Background())
+	defer release()
+	expDone := make(chan error, 1)
+	go func() { expDone <- ex.export(ctx) }()
+	// wait until the first attempt has reached the collector (and, for back-off, has been answered)
+	for t0 := time.Now(); time.Since(t0) < 10*time.Second; time.Sleep(200 * time.Microsecond) {
+		core.mu.Lock()
+		a, b := len(core.arrive), len(core.answered)
+		core.mu.Unlock()
+		if a >= 1 && (pend == "stall" || b >= 1) {
+			break
+		}
+	}
+	time.Sleep(5 * time.Millisecond)
+	sctx, c2 := context.WithTimeout(context.Background(), 100*time.Millisecond)
+	defer c2()
+	shDone := make(chan error, 1)
+	go func() { shDone <- ex.shutdown(sctx) }()
+	sres, eres := "stuck", "stuck"
+	final := time.After(2 * time.Second)
+	var shErr, exErr error
+	shRet, exRet := false, false
+obs:
+	for !(shRet && exRet) {
+		select {
+		case shErr = <-shDone:
+			shRet, sres = true, vErrClass(shErr)
+		case exErr = <-expDone:
+			exRet, eres = true, vErrClass(exErr)
+		case <-final:
+			break obs
+		}
+	}
+	core.mu.Lock()
+	n := len(core.arrive)
+	core.mu.Unlock()
+	// release whatever is still pending: the caller gives up
+	release()
+	for _, w := range []struct {
+		ret bool
+		ch  chan error
+	}{{shRet, shDone}, {exRet, expDone}} {
+		if !w.ret {
+			select {
+			case <-w.ch:
+			case <-time.After(20 * time.Second):
+				panic("verif: export/shutdown still blocked 20 s after the caller's context was cancelled")
+			}
+		}
+	}
+	return fmt.Sprintf("shutg %s %s,t%s %s => S%s E%s n%d", gen, vPkgTag, to, pend, sres, eres, n)
+}
+
+func vToOf(tok string) string {
+	for _, p := range strings.Split(tok, ",")[1:] {
+		if len(p) == 2 && p[0] == 't' {
+			return p[1:]
+		}
+	}
+	return "d"
 }
 
 var vDetails = []string{"-", "r0", "r1", "r2000000", "z", "n", "n.r1500000", "r1000000.n", "n.n", "r-4", "r3000000.r1"}
@@ -355,7 +490,9 @@ func TestVerifC14Client(t *testing.T) {
 						toks = append(toks, x)
 					}
 				}
-				vUp(out, f[1], f[3] == "1", f[4], f[5], toks)
+				vUp(out, f[1], vToOf(f[2]), f[3] == "1", f[4], f[5], toks)
+			case f[0] == "shutg" && len(f) >= 4:
+				out.Line("%s", vShut(f[1], vToOf(f[2]), f[3]))
 			}
 		}
 		return
@@ -414,8 +551,32 @@ func TestVerifC14Client(t *testing.T) {
 				cancelMode, gen = fmt.Sprintf("at%d", r.Intn(min(k, 2))), "cancel"
 			}
 		}
-		vUp(out, gen, enabled, msel, cancelMode, toks)
+		vUp(out, gen, vPick(r, []string{"d", "d", "p", "z", "z"}), enabled, msel, cancelMode, toks)
 	}
 	// RetryInfo honoured end to end, always present
-	vUp(out, "hint", true, "H", "-", []string{"14;r3000000;-", "8;n.r2000000;-", "0;-;-"})
+	vUp(out, "hint", "d", true, "H", "-", []string{"14;r3000000;-", "8;n.r2000000;-", "0;-;-"})
+	// every timeout configuration x {cancel, stop} in the first retry wait, always present
+	for _, to := range []string{"d", "p", "z"} {
+		vUp(out, "cancel", to, true, "0", "at0", []string{"14;-;-", "0;-;-"})
+		if vCanStop {
+			vUp(out, "stop", to, true, "0", "stop0", []string{"14;-;-", "0;-;-"})
+			vUp(out, "stop", to, true, "0", "stop1", []string{"4;-;-", "14;-;-", "0;-;-"})
+		}
+	}
+	// the client's own timeout ends a pending retry wait (gRPC: the timeout spans the whole upload)
+	vUp(out, "deadline", "q", true, "0", "dl0", []string{"14;-;-", "0;-;-"})
+	vUp(out, "deadline", "q", true, "H", "dl0", []string{"8;r1;-", "0;-;-"})
+	// export pending -> Shutdown with a 100 ms deadline; the scenarios of one leg run concurrently
+	var wg sync.WaitGroup
+	lines := make([]string, 6)
+	for i, to := range []string{"d", "p", "z"} {
+		for j, pend := range []string{"backoff", "stall"} {
+			wg.Add(1)
+			go func() { defer wg.Done(); lines[2*i+j] = vShut("tab", to, pend) }()
+		}
+	}
+	wg.Wait()
+	for _, l := range lines {
+		out.Line("%s", l)
+	}
 }
